@@ -171,7 +171,7 @@ impl Property for C11 {
         "ENUMERATED: single-block outputs of every length (thorough: 0..=4096 bits; quick: 0..=520 and every length congruent to 0,1,7,8,9,15,16,17,127,128,129,255 mod 256 up to 4096) \
          x content {pseudo-random, all ones, all zeros}, built directly through the BitVec API with one span, formatted by driver::format_output in each of 19 format spellings \
          (binary, binstr, hexstr, bindump, hexdump, mif, intelhex with addr_unit default/8/16/32, dec/hex comma/space, decc, hexc, c, logisim8/16). RANDOM: programs of #dN pieces \
-         (N = 1..64) with 1-4 blocks separated by forward #addr gaps (block starts on address-unit boundaries), labels and #res reservations between the pieces, assembled and formatted the same way. Oracle = an independent decoder \
+         (N = 1..64) with 1-4 blocks separated by forward #addr gaps (on any byte boundary), labels and #res reservations between the pieces, or - one case in four - in a bank with 1-, 2- or 4-bit addresses where #res and forward #addr let a written range start at ANY bit offset, assembled and formatted the same way. Oracle = an independent decoder \
          per format (addresses, '.' padding and ASCII column of the dumps, DEPTH/addresses/END of MIF, record length/address/type/checksum/EOF of Intel HEX with union of records = \
          every written bit, 16-per-line structure and address comments of the list formats): the decoded bits must equal the output zero-padded to the format's granule. \
          Non-trivial = length not a multiple of the granule (8), or within +-1 of a line/record size (128, 256 bits), or >= 2 blocks, or length 0; distinct by (length, content kind) / hash of source."
